@@ -129,9 +129,12 @@ class OAuth2ClientMixin(ClientMixin):
         return redirect_uri in self.redirect_uris
 
     def check_client_secret(self, client_secret):
-        # compare as bytes: compare_digest raises TypeError for non-ASCII str
+        # compare as bytes: compare_digest raises TypeError for non-ASCII str;
+        # text without a UTF-8 form (an unpaired surrogate out of a JSON
+        # escape) is encoded as it stands, so that it compares like any other
         return secrets.compare_digest(
-            to_bytes(self.client_secret), to_bytes(client_secret)
+            to_bytes(self.client_secret, errors="surrogatepass"),
+            to_bytes(client_secret, errors="surrogatepass"),
         )
 
     def check_endpoint_auth_method(self, method, endpoint):
